@@ -151,12 +151,20 @@ let f _id vs =
     if c <> 0 then "PROP PbValue.WriteTo: " ^ class_name c
     else begin
       let pv = parse_pb v in
+      let nodes = as_int nodes in
+      if nodes > 1500 then
+        (* deep or wide value: the instrumented walk keeps every path (quadratic memory); compare
+           the bytes with the recursive specification, which walk_eq_recursive proves equal *)
+        (if cs (enc_pb pv) <> as_bytes out then "DIFF PbValue.WriteTo bytes differ from the model (enc_pb)"
+         else if int_of_nat (pb_size pv) <> nodes then "DIFF node count differs from pb_size"
+         else "OK")
+      else
       match pb_write_i pv with
       | Ok r ->
-        let nodes = as_int nodes in
         if cs r.wr_bytes <> as_bytes out then "DIFF PbValue.WriteTo bytes differ from the model"
         else if List.length r.wr_visits <> nodes then
           Printf.sprintf "DIFF node count: model visits %d, driver counts %d" (List.length r.wr_visits) nodes
+        else if r.wr_visits <> rpaths (shape pv) then "DIFF visit order differs from the pre-order of the shape"
         else if int_of_nat r.wr_maxh > nodes then "PROP model stack height above the node count"
         else "OK"
       | _ -> "PROP model walk out of fuel"
@@ -193,14 +201,19 @@ let f _id vs =
     let c = as_int cl and md = as_int md and size = as_int size in
     if c = 5 then "PROP typesystem.NewAndValidate panics on a nested rewrite"
     else begin
-      (* a chain of md nested messages: wire_min = 2 (md - 1) must not exceed the real size *)
-      let rec chain d = if d <= 1 then Rose [] else Rose [chain (d - 1)] in
-      let t = chain md in
-      let wm = int_of_nat (wire_min t) in
-      if wm > size then Printf.sprintf "DIFF nesting %d needs at least %d wire bytes in the model, the message has %d" md wm size
-      else match struct_walk (nat_of_int (size / 2 + 1)) t with
-        | Ok d when int_of_nat d = md -> "OK"
-        | _ -> "DIFF struct_walk does not return within size/2+1"
+      (* a chain of md nested messages needs wire_min = 2 (md - 1) bytes (nesting_le_half_wire_size);
+         the extracted functions are run on the chain itself up to 2100 levels (unary arithmetic) *)
+      if 2 * (md - 1) > size then
+        Printf.sprintf "DIFF nesting %d needs at least %d wire bytes in the model, the message has %d" md (2 * (md - 1)) size
+      else if md > 2100 then "OK"
+      else begin
+        let rec chain d = if d <= 1 then Rose [] else Rose [chain (d - 1)] in
+        let t = chain md in
+        if int_of_nat (wire_min t) <> 2 * (md - 1) then "DIFF wire_min of a chain is not 2 (depth - 1)"
+        else match struct_walk (nat_of_int (size / 2 + 1)) t with
+          | Ok d when int_of_nat d = md -> "OK"
+          | _ -> "DIFF struct_walk does not return within size/2+1"
+      end
     end
 
   | [I "7"; cl; _; abs] ->
